@@ -4,6 +4,8 @@ import DnaModel.Model.Seq
 import DnaModel.Model.Loc
 import DnaModel.Model.Pattern
 import DnaModel.Model.Space
+import DnaModel.Model.Solver
+import DnaModel.Model.TableSpec
 import DnaModel.Props.C18
 import DnaModel.Props.C19
 import DnaModel.Props.C11
